@@ -42,13 +42,17 @@ def _add():
 
 
 def _ops(depth=0):
-    base = [(6, _add()), (1, st.tuples(st.just("dup"), st.integers(0, 5)).map(list))]
+    base = [(6, _add()), (1, st.tuples(st.just("dup"), st.integers(0, 5)).map(list)),
+            # a register added to a second, independent builder at this point (possibly inside scopes of the first)
+            (1, st.tuples(st.just("other"), st.sampled_from([0, 0, 1])).map(list))]
     if depth < 3:
         sub = st.deferred(lambda: _ops(depth + 1))
         base += [(2, st.tuples(st.just("cluster"), st.sampled_from(NAMES + NAMES + ["0", "1", "2", "0", "1", "", 3]), sub,
                                st.sampled_from(["in", "out"])).map(list)),
-                 (2, st.tuples(st.just("index"), st.sampled_from([0, 1, 2, 3, 0, 1, 2, -1, "i"]), sub,
-                               st.sampled_from(["in", "out"])).map(list))]
+                 (2, st.tuples(st.just("index"), st.sampled_from([0, 1, 2, 3, 0, 1, 2, -1, "i", 300, 300, 1000]), sub,
+                               st.sampled_from(["in", "out"])).map(list)),
+                 # the body runs inside a scope of the *second* builder (which must not qualify names of the first)
+                 (1, st.tuples(st.just("other_scope"), sub).map(list))]
     if depth == 0:
         base = [(3 * w, x) for w, x in base] + [(1, st.just(["freeze"])), (1, st.just(["as_memory_map"]))]
     return st.lists(gens.weighted(*base), min_size=4 if depth == 0 else 1, max_size=12 if depth == 0 else 3)
@@ -83,6 +87,14 @@ def conflict(n1, n2):
     return n1[:k] == n2[:k]
 
 
+def fresh(x):
+    """A new object equal to ``x`` (names and indices computed at run time are not the interned
+    literals / small ints of a test)."""
+    if isinstance(x, bool) or not isinstance(x, (int, str)):
+        return x
+    return int(str(x)) if isinstance(x, int) else "".join(list(x))
+
+
 def check(spec, stats):
     aw, dw, g = spec["aw"], spec["dw"], spec["g"]
     bad_geo = aw <= 0 or g <= 0 or dw % g != 0
@@ -98,6 +110,8 @@ def check(spec, stats):
     stats.label("granularity!=8", g != 8)
     ratio = dw // g
     model = []            # (reg, name tuple, width, offset)
+    other = csr.Builder(addr_width=16, data_width=8)      # the second builder: one-byte registers, no offsets
+    other_model, other_stack = [], []
     stack = []
     frozen = [False]
     regs = []
@@ -128,7 +142,7 @@ def check(spec, stats):
                        or (off is not None and (not isinstance(off, int) or off < 0 or off % ratio != 0))
                        or frozen[0])
                 try:
-                    ret = b.add(name, reg, offset=off)
+                    ret = b.add(fresh(name), reg, offset=off)
                     ok = True
                 except (TypeError, ValueError) as exc:
                     ok = False
@@ -173,7 +187,7 @@ def check(spec, stats):
                     cm = b.Index
                 entered = False
                 try:
-                    with cm(arg):
+                    with cm(fresh(arg)):
                         entered = True
                         if not bad:
                             stack.append(arg)
@@ -189,6 +203,25 @@ def check(spec, stats):
                         raise
                 if bad and entered:
                     raise Violation("C17/bad-scope-accepted", f"{k}({arg!r}) accepted")
+            elif k == "other":
+                reg = csr.Register(csr.Field(action.RW, 8), access="rw")
+                nm = f"o{len(other_model)}"
+                if op[1]:
+                    with other.Cluster("oc"):
+                        other.add(nm, reg)
+                    other_model.append((reg, tuple(other_stack) + ("oc", nm)))
+                else:
+                    other.add(nm, reg)
+                    other_model.append((reg, tuple(other_stack) + (nm,)))
+                stats.label("second_builder_add_inside_scope_of_first", bool(stack))
+            elif k == "other_scope":
+                with other.Index(7):
+                    other_stack.append(7)
+                    try:
+                        run(op[1], raising, in_scope)
+                    finally:
+                        other_stack.pop()
+                stats.label("first_builder_used_inside_scope_of_second")
             elif k == "freeze":
                 b.freeze()
                 frozen[0] = True
@@ -263,6 +296,12 @@ def check(spec, stats):
     if stack:
         raise Violation("C17/harness", "scope stack not empty")  # pragma: no cover
     kind = finish("final")
+    if other_model:
+        got = [(r, tuple(n), s, e) for r, n, (s, e) in other.as_memory_map().resources()]
+        want = [(r, n, k, k + 1) for k, (r, n) in enumerate(other_model)]
+        if len(got) != len(want) or any(a[0] is not c[0] or a[1:] != c[1:] for a, c in zip(got, want)):
+            raise Violation("C17/layout-second-builder", f"an independent builder used alongside: resources() = "
+                            f"{[(n, s, e) for _, n, s, e in got]}, expected {[(n, s, e) for _, n, s, e in want]}")
     multi_then_implicit = any(model[i][2] > dw and model[i + 1][3] is None for i in range(len(model) - 1))
     stats.add("registers", len(model))
     stats.nontrivial = (kind == "ok" and len(model) >= 3 and stats.has("explicit_offset") and multi_then_implicit
